@@ -500,6 +500,9 @@ def execute(lib, p, sched, wd, template, progs, mode, schedule, em, b):
         rv = p.initialize_os_locking()
     else:
         sched.reset(schedule, "off")
+        # mutex numbers start again with every C_Initialize (the calibration numbers them in its first and only execution)
+        sched.nmutex = 0
+        sched.owner = {}
         a = sched.args()
         rv = p.lib.C_Initialize(C.byref(a))
     if rv:
